@@ -907,7 +907,7 @@ impl Formatter {
     if self.html {
       format!("<div id=\"abstract\" class=\"mech-abstract\">{}</div>", abstract_paragraph)
     } else {
-      format!("{}\n", abstract_paragraph)
+      format!("%% {}\n", abstract_paragraph)
     }
   }
 
@@ -916,7 +916,7 @@ impl Formatter {
     if self.html {
       format!("<div id=\"{}\" equation=\"{}\" class=\"mech-equation\"></div>",id, node.to_string())
     } else {
-      format!("$$ {}\n", node.to_string())
+      format!("$${}\n", node.to_string())
     }
   }
 
